@@ -11,7 +11,7 @@ RULE = ("Cases: (grid, exhaustive) edges [1,2,4] and [0.5,1,2,4]; every [T x M] 
         "(quick) / T*M<=4 with T<=3 (thorough), M<=2 over the values {-1, 0.25, each edge, each mid-bin, above} "
         "x 2 amplitude patterns x {energy, amplitude}; (random) Hypothesis arrays T<=200, M<=6 with linear/log "
         "bin sets of 1..40 bins from define_hist_bins, each frequency snapped onto an edge with p=0.3, out-of-"
-        "range values on both sides, arrays handed over C-contiguous / column-major / strided / read-only. Oracle: brute force H[b,t]=sum_m w[t,m]*[e_b<=f[t,m]<e_b+1], w=a or a^2; "
+        "range values on both sides, arrays handed over C-contiguous / column-major / strided / read-only, frequencies stored as float64 / float32 (integer frequency arrays are not accepted by hilberthuang_1d and are outside the domain). Oracle: brute force H[b,t]=sum_m w[t,m]*[e_b<=f[t,m]<e_b+1], w=a or a^2; "
         "dense == H, sparse.toarray() == H, hilberthuang_1d[b,m] == sum_t, row sums agree, grand total == "
         "in-range amplitude/energy (<=1e-12 rel). Non-trivial: >=1 sample out of range or exactly on an edge.")
 ASSUMPTIONS = ["bin edges strictly increasing", "amplitudes finite and non-negative; frequencies finite"]
@@ -50,7 +50,19 @@ def oracle(case, rec):
     if not (np.all(np.isfinite(f)) and np.all(np.isfinite(a))):
         raise Discard('non-finite input (outside the domain)')
     lay = case.get('layout', 'C')
-    f0, a0 = gens.relayout(f.copy(), lay), gens.relayout(a.copy(), lay)   # what the routines get (the case stays pristine)
+    dt = case.get('dtype', 'f8')
+    if dt == 'f4':        # single-precision / integer frequency arrays: the brute force works on the exact stored values
+        f = f.astype(np.float32).astype(float)
+    elif dt == 'i8':
+        f = np.round(f)
+    fin = f.astype({'f8': np.float64, 'f4': np.float32, 'i8': np.int64}[dt])
+    H, S = brute(f, a, edges, mode)
+    below = bool((f < edges[0]).any())
+    above = bool((f >= edges[-1]).any())
+    onedge = bool(np.isin(f, edges).any())
+    tag = ('below' if below else '') + ('above' if above else '') + ('edge' if onedge else '') or 'inrange'
+    rec.cls('dtype=' + dt)
+    f0, a0 = gens.relayout(fin.copy(), lay), gens.relayout(a.copy(), lay)   # what the routines get (the case stays pristine)
     rec.cls('layout=' + lay)
     try:
         one = np.asarray(emd.spectra.hilberthuang_1d(f0, a0, edges.copy(), mode=mode))
@@ -58,7 +70,7 @@ def oracle(case, rec):
         sp = emd.spectra.hilberthuang(f0, a0, edges.copy(), mode=mode, return_sparse=True)
     except Exception as e:
         raise Violation('C10/raises/' + type(e).__name__, repr(e))
-    if not (np.array_equal(f, f0) and np.array_equal(a, a0)):
+    if not (np.array_equal(fin, f0) and np.array_equal(a, a0)):
         raise Violation('C10/input-modified', 'frequency or amplitude array changed by hilberthuang_1d / hilberthuang')
     spd = np.asarray(sp.toarray())
     if not close(dense, H):
@@ -120,7 +132,7 @@ def random_case(draw):
         f[rng.random((T, M)) < 0.1] *= -1
     a = np.round(rng.random((T, M)) * 3, 4)
     return {'f': f, 'a': a, 'edges': edges, 'mode': draw(st.sampled_from(['energy', 'amplitude'])),
-            'layout': draw(st.sampled_from(gens.LAYOUTS))}
+            'layout': draw(st.sampled_from(gens.LAYOUTS)), 'dtype': draw(st.sampled_from(['f8', 'f8', 'f4']))}
 
 
 CLAUSES = [
